@@ -747,7 +747,12 @@ def task_point_vector_magnetic(domain):
         if not isinstance(v, cx.Obj) or not isinstance(v.fields.get('_field'), Lin):
             return UNRECOGNISED('what is returned is not a field holding a linear combination of curl / interpolation products')
         rot = [x for x in r.state['log'] if x[0] == 'rotation']
-        if not rot or any(len(x[1]) != 2 or x[2] or not (cx.is_sym(x[1][0]) and x[1][0].eq(AZ) and cx.is_sym(x[1][1]) and x[1][1].eq(EL)) for x in rot):
+        from .c0910 import bind_call
+        try:
+            rb = [bind_call('electrodes.rotation', x[1], x[2]) for x in rot]      # positional and keyword forms are the same call
+        except Exception:
+            return UNRECOGNISED('a call of electrodes.rotation cannot be bound to its signature')
+        if not rb or any(not (cx.is_sym(b.get('azimuth')) and b['azimuth'].eq(AZ) and cx.is_sym(b.get('elevation')) and b['elevation'].eq(EL)) for b in rb):
             return False
         if v.fields['grid'] is not r.state['grid']:
             return False
